@@ -124,6 +124,31 @@ def _c20_stray(v, rec):
     return False
 
 
+@mechanism("C03-inner-policy-iteration-cycles-between-tied-actions-at-large-magnitudes")
+def _c03_pi_cycle(v, rec):
+    """LAOStar.plan_on raises AssertionError from `assert converged` at the end of ExplicitStateGraph._policy_iteration, on a
+    problem whose optimal values are of order 1e6 or more AND in which some state has two actions whose optimal action values
+    tie exactly (to 1e-12 relative): the strict argmax improvement step flips between them on rounding noise."""
+    f = v.get("facts", {})
+    if v["clause"] != "exception:LAOStar.plan_on" or f.get("exc_type") != "AssertionError":
+        return False
+    if not any("_policy_iteration" in w for w in f.get("where", [])):
+        return False
+    return bool(f.get("exact_tie_between_optimal_actions")) and float(f.get("value_magnitude", 0.0)) >= 1e6
+
+
+@mechanism("C09-bpi-does-not-check-the-lp-solver's-status")
+def _c09_lp_status(v, rec):
+    """FSCBoundedPolicyIteration.train_on raises TypeError inside its scipy_lp wrapper (it negates `res.ineqlin.marginals`, which
+    is None), and the probe on scipy.optimize.linprog saw the last LP end with a non-zero status (no solution returned)."""
+    f = v.get("facts", {})
+    if v["clause"] != "exception:FSCBoundedPolicyIteration.train_on" or f.get("exc_type") != "TypeError":
+        return False
+    if not any("scipy_lp" in w for w in f.get("where", [])):
+        return False
+    return f.get("last_lp_status") not in (None, 0)
+
+
 @mechanism("C09-bpi-accepts-lp-solutions-at-solver-noise-level")
 def _c09_lp_noise(v, rec):
     """FSCBoundedPolicyIteration.train_on raises AssertionError from one of its own consistency assertions (row
